@@ -94,9 +94,17 @@ def _unz(v):
     return v
 
 
+_STD_VARIANT_DISCR = {("core::option::Option", "None"): 0, ("core::option::Option", "Some"): 1,
+                      ("core::result::Result", "Ok"): 0, ("core::result::Result", "Err"): 1}
+
+
 def _canon_ite(t):
     """conditional values with a closed arithmetic meaning"""
     _, c, a, b = t
+    # a test of two constants (the discriminant of a value that is known to be one variant) chooses now
+    if c[0] == "cmp" and c[2][0] == "c" and c[3][0] == "c" and c[1] in ("Eq", "Ne", "Lt", "Le", "Gt", "Ge"):
+        x_, y_ = c[2][1], c[3][1]
+        return a if {"Eq": x_ == y_, "Ne": x_ != y_, "Lt": x_ < y_, "Le": x_ <= y_, "Gt": x_ > y_, "Ge": x_ >= y_}[c[1]] else b
     # match x.checked_sub(y) { Some(v) => v, None => 0 }  ==  x.saturating_sub(y)   (also unwrap_or(0) / unwrap_or_default() once spliced)
     if c[0] == "cmp" and c[1] == "Eq" and c[3] == ("c", 1) and c[2][0] == "discr":
         chk = c[2][1]
@@ -692,6 +700,8 @@ class TB:
                 da, db = self._variant_discr(pv[2]), self._variant_discr(pv[3])
                 if da is not None and db is not None:
                     return ("ite", pv[1], C(da), C(db))
+            if pv[0] == "aggr" and pv[1][0] == "adt" and len(pv[1]) > 2 and (pv[1][1], pv[1][2]) in _STD_VARIANT_DISCR:
+                return C(_STD_VARIANT_DISCR[(pv[1][1], pv[1][2])])
             return ("discr", pv)
         if k == "aggr":
             ops = tuple(self.operand(o, at) for o in rv["ops"])
